@@ -124,6 +124,9 @@ type Stats struct {
 	Schedule       []Switch
 	PreemptShapes  []uint64
 	Verdict        string
+	// LocalMax[t][o] is the number of decision points task t passed inside its
+	// op o (o < 8): the positions a bounded systematic search can preempt at.
+	LocalMax [MaxTasks][8]uint64
 }
 
 var (
@@ -245,6 +248,9 @@ func point(site uint32, boosted bool) {
 	t := &tasks[cur]
 	t.last = site
 	t.local++
+	if t.op >= 0 && t.op < 8 {
+		st.LocalMax[cur][t.op] = t.local
+	}
 	st.TraceHash = (st.TraceHash ^ (uint64(site)<<4 | uint64(cur))) * 0x100000001b3
 	if steps > cfg.Budget {
 		die(ExitBudget, "budget", "step budget exceeded")
